@@ -244,6 +244,20 @@ def _valid_challenge(ctx, nonce, opaque):
     """-> (grade, reason) for the challenge/address/lifetime part."""
     found = [c for c in ctx.issued if c[0] == nonce and c[1] == opaque]
     if not found:
+        # a different spelling of an issued opaque that base64-decodes to the same bytes (unused trailing bits of the
+        # last sextet): still altered text, so still to be refused, but named apart (known finding)
+        import base64 as _b64
+        import binascii as _ba
+
+        def _dec(o):
+            try:
+                d, _, b = o.partition(b"-")
+                return d, _b64.b64decode(b, validate=True)
+            except (_ba.Error, ValueError):
+                return None
+        mine = _dec(opaque)
+        if mine is not None and any(c[0] == nonce and _dec(c[1]) == mine for c in ctx.issued):
+            return REJECT, "opaque-noncanonical-base64"
         return REJECT, "no-such-challenge"
     grade = ACCEPT
     c = found[0]
